@@ -23,16 +23,17 @@ exception Timeout
 let fuel = lazy (nat_of_int 2_000_000)
 let small_fuel = lazy (nat_of_int 60_000)
 
-let with_timeout (secs : float) (f : unit -> 'a) : 'a option =
+let with_timeout (secs : float) (f : unit -> 'a) : ('a, string) result =
   let old = Sys.signal Sys.sigalrm (Sys.Signal_handle (fun _ -> raise Timeout)) in
   ignore (Unix.setitimer Unix.ITIMER_REAL { Unix.it_interval = 0.0; it_value = secs });
   let stop () =
     ignore (Unix.setitimer Unix.ITIMER_REAL { Unix.it_interval = 0.0; it_value = 0.0 });
     Sys.set_signal Sys.sigalrm old in
   match f () with
-  | v -> stop (); Some v
-  | exception Timeout -> stop (); None
-  | exception Stack_overflow -> stop (); None
+  | v -> stop (); Ok v
+  | exception Timeout -> stop (); Error "TIMEOUT"
+  | exception Stack_overflow -> stop (); Error "STACK"
+  | exception Out_of_memory -> stop (); Error "MEMORY"
   | exception e -> stop (); raise e
 
 type canon = { kind : string; printed : int list }
@@ -47,8 +48,8 @@ let canon_of = function
 
 let evaluate ?(fuel = fuel) ?(secs = 2.0) (p : program) : canon =
   match with_timeout secs (fun () -> run_program (Lazy.force fuel) p []) with
-  | Some o -> canon_of o
-  | None -> { kind = "TIMEOUT"; printed = [] }
+  | Ok o -> canon_of o
+  | Error why -> { kind = why; printed = [] }
 
 let printed_str c = String.concat "," (List.map string_of_int c.printed)
 
@@ -57,7 +58,7 @@ let header id = Printf.sprintf "@@@ %s stack=3000 mem=20000\n" id
 let nontrivial profile (st : Gen.st) (h : Stats.t) (c : canon) : bool =
   let fl k = try Hashtbl.find st.Gen.flags k with Not_found -> 0 in
   let g = Stats.get h in
-  let ok = c.kind <> "FUEL" && c.kind <> "STUCK" && c.kind <> "TIMEOUT" in
+  let ok = not (List.mem c.kind ["FUEL"; "STUCK"; "TIMEOUT"; "STACK"; "MEMORY"]) in
   ok && (match profile with
       | "arith" -> g "EBin.add" + g "EBin.sub" + g "EBin.mul" + g "EBin.div" + g "EBin.mod" + g "EBin.band"
                    + g "EBin.bor" + g "EBin.bxor" + g "EBin.shl" + g "EBin.shr" >= 8
@@ -102,10 +103,11 @@ let cmd_gen seed n outdir profile ovr =
     (* sanity of the renamings themselves: the evaluator must not see a difference.  Skipped for
        expensive cases (long tail-recursive loops): the evaluator is quadratic in the number of cells *)
     let cu, cr = if t1 < 0.25 then (evaluate pu, evaluate pr) else (c, c) in
-    let cu = if cu.kind = "TIMEOUT" then c else cu and cr = if cr.kind = "TIMEOUT" then c else cr in
+    let lim k = List.mem k ["TIMEOUT"; "STACK"; "MEMORY"] in
+    let cu = if lim cu.kind then c else cu and cr = if lim cr.kind then c else cr in
     teval := !teval +. (Unix.gettimeofday () -. te);
     Stats.add outcomes "cases" 1;
-    if c.kind = "FUEL" || c.kind = "STUCK" || c.kind = "TIMEOUT" then
+    if List.mem c.kind ["FUEL"; "STUCK"; "TIMEOUT"; "STACK"; "MEMORY"] then
       (* not a usable case: the generator produced something outside the model or too expensive *)
       (Stats.add outcomes ("dropped." ^ c.kind) 1;
        Printf.fprintf oa "%s\t%s\n" id (Sexp.program_to_string p))
@@ -189,7 +191,7 @@ let cmd_shrink ?(pipe = 0) path outdir =
         if not (Hashtbl.mem seen src) then begin
           Hashtbl.add seen src ();
           let c = evaluate ~fuel:small_fuel ~secs:0.5 q in
-          if c.kind <> "FUEL" && c.kind <> "STUCK" && c.kind <> "TIMEOUT" then begin
+          if not (List.mem c.kind ["FUEL"; "STUCK"; "TIMEOUT"; "STACK"; "MEMORY"]) then begin
             let id = Printf.sprintf "%s.s%d" id0 i in
             let sz = Stats.get (Stats.program q) "nodes" in
             Printf.fprintf oe "%s\tshrink\t0\t%s\t%s\t%s\t%d\n" id c.kind (printed_str c) (Shrink.signature q) sz;
